@@ -99,6 +99,15 @@ def run(ctx):
                     if name.startswith('randint') and mode != 'scalar': w['finding_key'] = 'randint-per-agent-path'
                     viol(f'{name} with {mode} parameters raised {type(E).__name__}: {str(E)[:120]}', w); continue
                 out[mode] = v
+                # the same seed gives the same variates whatever happened to the process-wide generator in between
+                try:
+                    np.random.random(7)
+                    d_again = mk(mode, N); d_again.init(trace=f'c05_{name}', seed=seed, sim=sim, force=True)
+                    v_again = np.asarray(d_again.rvs(uids))
+                    if not np.array_equal(v, v_again, equal_nan=True) if v.dtype.kind == 'f' else not np.array_equal(v, v_again):
+                        viol(f'{name}/{mode}: the same seed gives other variates after draws from np.random: the family does not sample from its own generator', W)
+                except Exception:
+                    pass
                 ctx.count((name, mode, seed), nontrivial=True); ctx.dist(f'{name}/{mode}')
                 if len(v) != len(uids): viol(f'{name}/{mode}: {len(v)} variates for {len(uids)} agents', W); continue
                 vf = v.astype(float)
